@@ -597,6 +597,15 @@ func genC05(d *Draw) Case {
 	g.addNode(&Node{ID: "O", Kind: "or"})
 	g.connect(defs, t0.ID, "O", nil, -1)
 	g.addNode(&Node{ID: "OJ", Kind: "or"})
+	// a gateway that joins and forks at once between the fork and the join: the tokens of the first level are
+	// merged there and leave again over every true outgoing flow (one token game step, but several tokens and
+	// several flow traces in the engine)
+	mixed := acts == 1 && d.N(4) == 3
+	join1 := "OJ"
+	if mixed {
+		g.addNode(&Node{ID: "M", Kind: "or"})
+		join1 = "M"
+	}
 	var desc []string
 	ci := 0
 	joined := 0
@@ -606,7 +615,7 @@ func genC05(d *Draw) Case {
 		// a branch without any activity: a sequence flow straight from the fork to the join (the token is at the
 		// join before anybody has had time to take in what the fork announced)
 		direct := d.N(4) == 3
-		target := "OJ"
+		target := join1
 		var b *Node
 		if !direct {
 			b = mk(fmt.Sprintf("B%d", pos+1))
@@ -643,9 +652,32 @@ func genC05(d *Draw) Case {
 			desc[len(desc)-1] += "(ends)"
 			early++
 		} else {
-			g.connect(defs, last, "OJ", nil, -1)
+			g.connect(defs, last, join1, nil, -1)
 			joined++
 		}
+	}
+	if mixed {
+		k := 2 + d.N(2)
+		anyTrue := false
+		var md []string
+		for i := 1; i <= k; i++ {
+			v := fmt.Sprintf("m%d", i)
+			val := d.Bool()
+			if i == k && !anyTrue {
+				val = true
+			}
+			anyTrue = anyTrue || val
+			vars[v] = val
+			target := "OJ"
+			if d.N(4) != 3 {
+				mb := mk(fmt.Sprintf("MB%d", i))
+				g.connect(defs, mb.ID, "OJ", nil, -1)
+				target = mb.ID
+			}
+			g.connect(defs, "M", target, &Cond{Var: v, Want: true}, -1)
+			md = append(md, fmt.Sprintf("%s=%v", v, val))
+		}
+		desc = append(desc, "then mixed gateway["+strings.Join(md, " | ")+"]")
 	}
 	ta := mk("TA")
 	g.connect(defs, "OJ", ta.ID, nil, -1)
@@ -681,7 +713,7 @@ func genC05(d *Draw) Case {
 	prog := &Program{Defs: defs, Vars: vars, Desc: fmt.Sprintf("or[%s] activations=%d parallel-siblings=%d", strings.Join(desc, " | "), acts, siblings)}
 	c := &ProcCase{Prog: prog, Buf: d.N(17), Hold: d.N(3)}
 	c.Picks = drawPicks(d, 40)
-	c.Meta = map[string]int{"early": early, "acts": acts, "siblings": siblings, "directs": directs}
+	c.Meta = map[string]int{"early": early, "acts": acts, "siblings": siblings, "directs": directs, "mixed": b2i(mixed)}
 	return c
 }
 
@@ -715,6 +747,7 @@ func checkC05(cc Case, r *simrt.Result) *Outcome {
 	o.Nontrivial = r.Switches > 0 && nb >= 2
 	probe(o, "branch-ended-before-join", c.Meta["early"] > 0)
 	probe(o, "flow-straight-from-fork-to-join", c.Meta["directs"] > 0)
+	probe(o, "gateway-that-joins-and-forks-at-once", c.Meta["mixed"] == 1)
 	probe(o, "fork-join-re-entered", c.Meta["acts"] > 1)
 	probe(o, "unrelated-parallel-activity", c.Meta["siblings"] > 0)
 	probe(o, "no-effective-flow", len(tg.M.Errors) > 0)
